@@ -3,6 +3,7 @@ package blsx
 import (
 	"encoding/json"
 	"fmt"
+	"math/big"
 
 	crypto "github.com/onflow/crypto"
 	"verifharness/ref"
@@ -203,6 +204,52 @@ func runBatchExtra(raw json.RawMessage, seed int64) (res Result) {
 					res.Violations = append(res.Violations, Violation{"C03", "AgreesWithVerify",
 						fmt.Sprintf("batch of %d whose only invalid entries are s_%d+d and s_%d-d: index %d is reported %v [seed %d]", n, i, j, x, got[x], seed)})
 					break
+				}
+			}
+		}
+	}
+	// batches whose ONLY invalid entries carry errors that are a finite difference of order k along an arithmetic progression of
+	// indices (+D, -2D, +D; +D, -3D, +3D, -D; ...): they cancel against every coefficient sequence that is a polynomial of degree < k
+	// in the index (one random value plus the index, a random affine function of the index, ...), whatever the random values are.
+	// Independent coefficients separate them.
+	{
+		var ks []crypto.PublicKey
+		var ps []ref.G1
+		for k := 0; k < 4; k++ {
+			sc := w.Scalar(fmt.Sprintf("big%d", k))
+			ks = append(ks, w.SK(sc).PublicKey())
+			ps = append(ps, H.Mul(sc))
+		}
+		d := w.D()
+		for _, co := range [][]int64{{1, -2, 1}, {1, -3, 3, -1}, {1, -4, 6, -4, 1}, {-1, 2, -1}} {
+			for _, step := range []int{1, 2, 5} {
+				span := (len(co) - 1) * step
+				n := span + 1 + w.Rng.Intn(4)
+				first := w.Rng.Intn(n - span)
+				pk := make([]crypto.PublicKey, n)
+				sg := make([]crypto.Signature, n)
+				bad := map[int]bool{}
+				for x := 0; x < n; x++ {
+					pk[x], sg[x] = ks[x%4], ps[x%4].Compress()
+				}
+				for k, c := range co {
+					x := first + k*step
+					e := d.Mul(new(big.Int).Mod(big.NewInt(c), ref.R))
+					sg[x] = ps[x%4].Add(e).Compress()
+					bad[x] = true
+				}
+				got, err := crypto.BatchVerifyBLSSignaturesOneMessage(pk, sg, m.Data, h)
+				res.Evals++
+				if err != nil || len(got) != n {
+					res.Violations = append(res.Violations, Violation{"C03", "AgreesWithVerify", fmt.Sprintf("batch of %d: (%d results, %v)", n, len(got), err)})
+					continue
+				}
+				for x := range got {
+					if got[x] != !bad[x] {
+						res.Violations = append(res.Violations, Violation{"C03", "AgreesWithVerify",
+							fmt.Sprintf("batch of %d whose only invalid entries carry the errors %v x D at indices %d, %d+%d, ...: index %d is reported %v [seed %d]", n, co, first, first, step, x, got[x], seed)})
+						break
+					}
 				}
 			}
 		}
